@@ -46,24 +46,54 @@ inductive Frag : Node → Prop
       (hc : n.children = kids.map some) (hk : ∀ c, c ∈ kids → Frag c) : Frag n
   | map (n : Node) (t : Tok) (kids : List Node) (ht : n.tok = some t) (h : n.name = "map")
       (hc : n.children = kids.map some) (hk : ∀ c, c ∈ kids → FragEntry c) : Frag n
-  | ident0 (n : Node) (t : Tok) (ht : n.tok = some t) (h : n.name = "identifier") (hc : n.children = []) : Frag n
+  | ident (n : Node) (t : Tok) (kids : List Node) (ht : n.tok = some t) (h : n.name = "identifier")
+      (hc : n.children = kids.map some) (hl : ∀ c, c ∈ kids → Link c) : Frag n
   | assign (n : Node) (t : Tok) (lhs rhs : Node) (ht : n.tok = some t) (h : n.name = ":=")
-      (hc : n.children = [some lhs, some rhs]) (hl : lhs.name = "identifier") (fl : Frag lhs) (fr : Frag rhs) : Frag n
-  | assignLet (n : Node) (t : Tok) (lhs lv rhs : Node) (ht : n.tok = some t) (h : n.name = ":=")
-      (hc : n.children = [some lhs, some rhs]) (hl : lhs.name = "let") (hlc : lhs.children = [some lv])
-      (hlv : lv.name = "identifier") (flv : Frag lv) (fl : Frag lhs) (fr : Frag rhs) : Frag n
+      (hc : n.children = [some lhs, some rhs]) (fl : Frag lhs) (fr : Frag rhs) : Frag n
   | letN (n : Node) (t : Tok) (lv : Node) (ht : n.tok = some t) (h : n.name = "let")
       (hc : n.children = [some lv]) (fl : Frag lv) : Frag n
   | ifN (n : Node) (t : Tok) (pairs : List (Node × Node)) (ht : n.tok = some t) (h : n.name = "if")
       (hc : n.children = pairs.flatMap (fun p => [some p.1, some p.2]))
       (hg : ∀ p, p ∈ pairs → Frag p.1) (hb : ∀ p, p ∈ pairs → Frag p.2) : Frag n
-  | loopGuard (n : Node) (t : Tok) (c0 body : Node) (ht : n.tok = some t) (h : n.name = "loop")
-      (hc : n.children = [some c0, some body]) (h0 : c0.name = "guard") (f0 : Frag c0) (fb : Frag body) : Frag n
+  | loop (n : Node) (t : Tok) (c0 body : Node) (ht : n.tok = some t) (h : n.name = "loop")
+      (hc : n.children = [some c0, some body]) (f0 : Frag c0) (fb : Frag body) : Frag n
   | istring (n : Node) (t : Tok) (ht : n.tok = some t) (h : n.name = "string") : Frag n
+  | asN (n : Node) (t : Tok) (v : Node) (ht : n.tok = some t) (h : n.name = "as") (hc : n.children = [some v])
+      (fv : Frag v) : Frag n
+  | tryN (n : Node) (t : Tok) (body : Node) (clauses : List Node) (ht : n.tok = some t) (h : n.name = "try")
+      (hc : n.children = some body :: clauses.map some) (fb : Frag body) (hbn : body.name ≠ "finally")
+      (hcl : ∀ c, c ∈ clauses → Clause c) : Frag n
+  | funcNamed (n : Node) (t t0 : Tok) (c0 params body : Node) (ps : List Node) (ht : n.tok = some t)
+      (h : n.name = "function") (hc : n.children = [some c0, some params, some body])
+      (h0 : c0.name = "identifier") (ht0 : c0.tok = some t0)
+      (hp : params.children = ps.map some) (hps : ∀ p, p ∈ ps → Param p) (fb : Frag body) : Frag n
+  | funcAnon (n : Node) (t : Tok) (params body : Node) (ps : List Node) (ht : n.tok = some t)
+      (h : n.name = "function") (hc : n.children = [some params, some body]) (h0 : params.name ≠ "identifier")
+      (hp : params.children = ps.map some) (hps : ∀ p, p ∈ ps → Param p) (fb : Frag body) : Frag n
   | inert (n : Node) (t : Tok) (ht : n.tok = some t)
       (h : n.name = "like" ∨ n.name = "kvp" ∨ n.name = "preset" ∨ n.name = "params" ∨ n.name = "funccall" ∨
-           n.name = "compaccess" ∨ n.name = "as" ∨ n.name = "except" ∨ n.name = "otherwise" ∨ n.name = "finally" ∨
+           n.name = "compaccess" ∨ n.name = "except" ∨ n.name = "otherwise" ∨ n.name = "finally" ∨
            n.name = "sink" ∨ n.name = "import" ∨ n.name = "mutex") : Frag n
+/-- a link of an access path `a.b[c]…`: index expression, field (with its own continuation), anything else -/
+inductive Link : Node → Prop
+  | comp (c e : Node) (hn : c.name = "compaccess") (hc : c.children = [some e]) (fe : Frag e) : Link c
+  | field (c : Node) (t : Tok) (kids : List Node) (hn : c.name = "identifier") (ht : c.tok = some t)
+      (hc : c.children = kids.map some) (hl : ∀ k, k ∈ kids → Link k) : Link c
+  | other (c : Node) (hn : c.name ≠ "compaccess" ∧ c.name ≠ "identifier" ∧ c.name ≠ "funccall") : Link c
+/-- a parameter of a function declaration: a name, a name with a default expression, anything else (ignored) -/
+inductive Param : Node → Prop
+  | name (p : Node) (t : Tok) (hn : p.name = "identifier") (ht : p.tok = some t) : Param p
+  | preset (p nm d : Node) (t : Tok) (hn : p.name = "preset") (hc : p.children = [some nm, some d])
+      (ht : nm.tok = some t) (fd : Frag d) : Param p
+  | other (p : Node) (hn : p.name ≠ "identifier" ∧ p.name ≠ "preset") : Param p
+/-- a clause of `try`: an except clause (any of its shapes: its children are `Frag`), an otherwise / finally
+    block, anything else (ignored by the evaluator) -/
+inductive Clause : Node → Prop
+  | exc (c : Node) (t : Tok) (kids : List Node) (hn : c.name = "except") (ht : c.tok = some t)
+      (hc : c.children = kids.map some) (hne : kids ≠ []) (hk : ∀ k, k ∈ kids → Frag k) : Clause c
+  | blk (c : Node) (t : Tok) (b : Node) (hn : c.name = "otherwise" ∨ c.name = "finally") (ht : c.tok = some t)
+      (hc : c.children = [some b]) (fb : Frag b) : Clause c
+  | other (c : Node) (hn : c.name ≠ "except" ∧ c.name ≠ "otherwise" ∧ c.name ≠ "finally") : Clause c
 /-- an entry of a map literal: not a key-value pair (the evaluator answers with an error), or a pair of expressions -/
 inductive FragEntry : Node → Prop
   | bad (c : Node) (h : c.name ≠ "kvp" ∨ c.children.length ≠ 2) : FragEntry c
@@ -71,7 +101,7 @@ inductive FragEntry : Node → Prop
 end
 
 def Inv (s : St) : Prop :=
-  (∀ fr, fr ∈ s.funcs.toList → Frag fr.decl) ∧ (∀ code n, (code, InterpEntry.ast n) ∈ s.interp → Frag n)
+  (∀ fr, fr ∈ s.funcs.toList → Frag fr.decl ∧ fr.decl.name = "function") ∧ (∀ code n, (code, InterpEntry.ast n) ∈ s.interp → Frag n)
 
 /-- from a state satisfying `Inv`, `m` never ends in `panic`, leaves a state satisfying `Inv`, and a normal result satisfies `Q` -/
 def NPQ {α : Type} (m : M α) (Q : α → Prop) : Prop :=
@@ -151,6 +181,38 @@ theorem NPQ.forIn {α β : Type} (l : List α) (body : α → β → M (ForInSte
     | done b => exact NPQ.pure _ (fun _ => True) trivial
     | yield b => exact ih (fun a ha => h a (by simp [ha])) b
 
+theorem NPQ.mapMQ {α β : Type} (Q : β → Prop) (l : List α) (g : α → M β) (h : ∀ a, a ∈ l → NPQ (g a) Q) :
+    NPQ (l.mapM g) (fun r => ∀ b, b ∈ r → Q b) := by
+  induction l with
+  | nil => simp only [List.mapM_nil]; exact NPQ.pure _ _ (by intro b hb; cases hb)
+  | cons x xs ih =>
+    simp only [List.mapM_cons]
+    refine NPQ.bind _ _ Q _ (h x (by simp)) (fun r hr => ?_)
+    refine NPQ.bind _ _ _ _ (ih (fun a ha => h a (by simp [ha]))) (fun rs hrs => ?_)
+    refine NPQ.pure _ _ ?_
+    intro b hb
+    simp only [List.mem_cons] at hb
+    rcases hb with hb | hb
+    · subst hb; exact hr
+    · exact hrs b hb
+
+def stepVal {β : Type} : ForInStep β → β
+  | .done b => b
+  | .yield b => b
+
+/-- `forIn` with a loop invariant `P` on the loop state -/
+theorem NPQ.forInP {α β : Type} (P : β → Prop) (l : List α) (body : α → β → M (ForInStep β))
+    (h : ∀ a, a ∈ l → ∀ b, P b → NPQ (body a b) (fun r => P (stepVal r))) : ∀ init, P init → NPQ (ForIn.forIn l init body) P := by
+  induction l with
+  | nil => intro init hi; simp only [List.forIn_nil]; exact NPQ.pure _ _ hi
+  | cons x xs ih =>
+    intro init hi
+    simp only [List.forIn_cons]
+    refine NPQ.bind _ _ _ _ (h x (by simp) init hi) (fun r hr => ?_)
+    cases r with
+    | done b => exact NPQ.pure _ _ hr
+    | yield b => exact ih (fun a ha => h a (by simp [ha])) b hr
+
 theorem NPQ.mapM {α β : Type} (l : List α) (g : α → M β) (h : ∀ a, a ∈ l → NP (g a)) : NP (l.mapM g) := by
   induction l with
   | nil => simp only [List.mapM_nil]; exact NPQ.pure _ (fun _ => True) trivial
@@ -173,7 +235,7 @@ macro_rules | `(tactic| np_lem) => `(tactic| fail "no lemma")
 macro "np1" : tactic => `(tactic| first
   | with_reducible np_lem
   | with_reducible exact NPQ.pure _ (fun _ => True) trivial
-  | (with_reducible refine NPQ.throw _ _ ?_) <;> (first | exact rtErr_ne_panic _ _ | assumption | simp [plain, raiseSig])
+  | (with_reducible refine NPQ.throw _ _ ?_) <;> (first | exact rtErr_ne_panic _ _ | assumption | simp [plain, raiseSig] | (simp only [] at *; assumption))
   | with_reducible exact NPQ.get'
   | (with_reducible refine NPQ.set _ ?_) <;> assumption
   | (with_reducible refine NPQ.modify _ ?_) <;> exact fun _ h => h
@@ -182,6 +244,7 @@ macro "np1" : tactic => `(tactic| first
   | with_reducible refine NPQ.foldlM _ _ (fun _ _ _ => ?_) _
   | with_reducible refine NPQ.mapM _ _ (fun _ _ => ?_)
   | with_reducible refine NPQ.bind (get : M St) _ Inv _ NPQ.get (fun _ _ => ?_)
+  | with_reducible refine NPQ.bind (attemptE _) _ _ _ (NPQ.attemptE _ (fun _ => True) ?_) (fun _ _ => ?_)
   | with_reducible refine NPQ.bind _ _ (fun _ => True) _ ?_ (fun _ _ => ?_)
   | with_reducible solve_by_elim (maxDepth := 6)
   | split
@@ -326,8 +389,16 @@ macro_rules | `(tactic| np_lem) => `(tactic| exact numberOf_np _)
 
 theorem Frag.tok {n : Node} (h : Frag n) : ∃ t, n.tok = some t := by
   cases h <;> exact ⟨_, by assumption⟩
-theorem Frag.ident_inv {n : Node} (h : Frag n) (hn : n.name = "identifier") : ∃ t, n.tok = some t ∧ n.children = [] := by
-  cases h <;> simp_all
+theorem Frag.ident_inv {n : Node} (h : Frag n) (hn : n.name = "identifier") :
+    ∃ (t : Tok) (kids : List Node), n.tok = some t ∧ n.children = kids.map some ∧ ∀ c, c ∈ kids → Link c := by
+  cases h <;> first | exact ⟨_, _, by assumption, by assumption, by assumption⟩ | simp_all
+
+/-- a node on which a call can be resolved: an access path one of whose links is a call -/
+def Good (cn : Node) : Prop :=
+  ∃ kids : List Node, cn.children = kids.map some ∧ (∀ c, c ∈ kids → Link c) ∧ ∃ fc, fc ∈ kids ∧ fc.name = "funccall"
+def AccQ (r : Option Node × List Nat) : Prop := ∀ cn, r.1 = some cn → Good cn
+/-- loop invariant of `accessString` (the early-return slot of the loop state) -/
+def AccP (st : Option (Option Node × List Nat) × List Nat × Nat) : Prop := ∀ r, st.1 = some r → AccQ r
 
 theorem Frag.list_inv {n : Node} (h : Frag n) (hn : n.name = "list") :
     ∃ kids : List Node, n.children = kids.map some ∧ ∀ c, c ∈ kids → Frag c := by
@@ -371,6 +442,88 @@ theorem guardLoop_np (guard body : M Val) (hg : NP guard) (hb : NP body) : ∀ k
       have he : e ≠ Sig.panic := hr
       np
 
+/-- `match ← attemptE m with | .ok _ => … | .error e => …` where the error branch may rethrow `e` -/
+macro "np_att " h:term : tactic => `(tactic| (
+  refine NPQ.bind _ _ _ _ (NPQ.attemptE _ _ $h) (fun r hr => ?_)
+  cases r with
+  | ok a => dsimp only []; np
+  | error e => have he : e ≠ Sig.panic := hr; dsimp only []; np))
+
+theorem iterLoop_np {σ : Type} (next : σ → M (Val × σ)) (bnd : Val → M Unit) (body : M Val)
+    (hn : ∀ s, NP (next s)) (hb : ∀ v, NP (bnd v)) (hbody : NP body) : ∀ k s, NP (iterLoop next bnd body k s) := by
+  intro k; induction k with
+  | zero => intro s; unfold iterLoop; np
+  | succ k ih =>
+    intro s
+    unfold iterLoop
+    refine NPQ.bind _ _ _ _ (NPQ.attemptE _ _ (hn s)) (fun r hr => ?_)
+    cases r with
+    | ok p =>
+      obtain ⟨v, s'⟩ := p
+      dsimp only []
+      refine NPQ.bind _ _ (fun _ => True) _ (hb v) (fun _ _ => ?_)
+      np_att hbody
+    | error e => have he : e ≠ Sig.panic := hr; dsimp only []; np
+
+theorem bindLoopVars_np (ls : Nat) (n : Node) (vars : List (List Nat)) (item : Val) : NP (bindLoopVars ls n vars item) := by
+  unfold bindLoopVars; np
+
+theorem dispatchExcept_np : ∀ (hs : List Handler), (∀ h, h ∈ hs → ∀ e, NP (h e)) → ∀ e, e ≠ Sig.panic → NP (dispatchExcept hs e) := by
+  intro hs; induction hs with
+  | nil => intro _ e he; unfold dispatchExcept; exact NPQ.throw _ _ he
+  | cons h hs ih =>
+    intro hh e he
+    unfold dispatchExcept
+    refine NPQ.bind _ _ (fun _ => True) _ (hh h (by simp) e) (fun r _ => ?_)
+    split
+    · np
+    · exact ih (fun h' hm => hh h' (by simp [hm])) e he
+
+theorem tryCore_np (body : M Val) (handlers : List Handler) (oth : Option (M Val)) (hb : NP body)
+    (hh : ∀ h, h ∈ handlers → ∀ e, NP (h e)) (ho : ∀ o, oth = some o → NP o) : NP (tryCore body handlers oth) := by
+  unfold tryCore
+  refine NPQ.bind _ _ _ _ (NPQ.attemptE _ _ hb) (fun r hr => ?_)
+  cases r with
+  | ok v =>
+    dsimp only []
+    split
+    · rename_i o; exact NPQ.bind _ _ (fun _ => True) _ (ho o rfl) (fun _ _ => NPQ.pure _ _ trivial)
+    · np
+  | error e =>
+    have he : e ≠ Sig.panic := hr
+    dsimp only []
+    split
+    · np
+    · exact dispatchExcept_np handlers hh e he
+
+theorem tryFinally_np (main : M Val) (fin : Option (M Val)) (hm : NP main) (hf : ∀ fi, fin = some fi → NP fi) :
+    NP (Ecal.Ev.tryFinally main fin) := by
+  unfold Ecal.Ev.tryFinally
+  refine NPQ.bind _ _ _ _ (NPQ.attemptE _ _ hm) (fun r hr => ?_)
+  dsimp only []
+  cases r with
+  | ok v =>
+    split
+    · rename_i fi; have hfi := hf fi rfl; np
+    · np
+  | error e =>
+    have he : e ≠ Sig.panic := hr
+    split
+    · rename_i fi; have hfi := hf fi rfl; np
+    · np
+
+theorem typedMatch_np (ty : String) (f : List Nat → String) : ∀ (l : List (M Val)), (∀ m, m ∈ l → NP m) → NP (typedMatch ty f l) := by
+  intro l; induction l with
+  | nil => intro _; unfold typedMatch; np
+  | cons m ms ih =>
+    intro h
+    have hm := h m (by simp)
+    have ih' := ih (fun m' hm' => h m' (by simp [hm']))
+    unfold typedMatch; np
+
+theorem errObject_np (e : Sig) : NP (errObject e) := by unfold errObject; np
+macro_rules | `(tactic| np_lem) => `(tactic| exact errObject_np _)
+
 theorem withFreshIs_np {α : Type} (m : M α) (hm : NP m) : NP (withFreshIs m) := by
   unfold withFreshIs
   refine NPQ.bind (get : M St) _ Inv _ NPQ.get (fun s hs => ?_)
@@ -386,6 +539,57 @@ theorem withFreshIs_np {α : Type} (m : M α) (hm : NP m) : NP (withFreshIs m) :
 
 theorem scopeName_np (n : Node) (t : Tok) (ht : n.tok = some t) : NP (scopeName n) := by
   unfold scopeName; simp [tokOf, ht]; np
+
+theorem Frag.in_inv {n : Node} (h : Frag n) (hn : n.name = "in") :
+    ∃ a b : Node, n.children = [some a, some b] ∧ Frag a ∧ Frag b := by
+  cases h <;> first | exact ⟨_, _, by assumption, by assumption, by assumption⟩ | simp_all
+
+theorem Frag.as_inv {n : Node} (h : Frag n) (hn : n.name = "as") : ∃ v : Node, n.children = [some v] ∧ Frag v := by
+  cases h <;> first | exact ⟨_, by assumption, by assumption⟩ | simp_all
+
+theorem getLast?_cons_append_singleton {α : Type} (a : α) (l : List α) (x : α) : (a :: (l ++ [x])).getLast? = some x := by
+  induction l generalizing a with
+  | nil => rfl
+  | cons b l ih => rw [List.cons_append, List.getLast?_cons_cons]; exact ih b
+
+theorem Frag.func_inv {n : Node} (h : Frag n) (hn : n.name = "function") :
+    ∃ (params body : Node) (ps : List Node), params.children = ps.map some ∧ (∀ p, p ∈ ps → Param p) ∧ Frag body ∧
+      ((∃ c0 : Node, n.children = [some c0, some params, some body] ∧ c0.name = "identifier") ∨
+       (n.children = [some params, some body] ∧ params.name ≠ "identifier")) := by
+  cases h <;> first
+    | exact ⟨_, _, _, by assumption, by assumption, by assumption, Or.inl ⟨_, by assumption, by assumption⟩⟩
+    | exact ⟨_, _, _, by assumption, by assumption, by assumption, Or.inr ⟨by assumption, by assumption⟩⟩
+    | simp_all
+
+theorem callCore_np (body : M Val) (hb : NP body) : NP (callCore body) := by
+  unfold callCore; np
+
+theorem bindParamNodes_np (evalDefault : Node → M Val) (hd : ∀ d, Frag d → NP (evalDefault d)) (fvs : Nat) :
+    ∀ (ps : List Node), (∀ p, p ∈ ps → Param p) → ∀ i args, NP (bindParamNodes evalDefault fvs (ps.map some) i args) := by
+  intro ps; induction ps with
+  | nil => intro _ i args; simp only [List.map_nil]; unfold bindParamNodes; np
+  | cons p ps ih =>
+    intro hps i args
+    simp only [List.map_cons]
+    unfold bindParamNodes
+    refine NPQ.bind _ _ (fun _ => True) _ ?_ (fun _ _ => ih (fun q hq => hps q (by simp [hq])) _ _)
+    unfold bindParamNode
+    cases hps p (by simp) with
+    | name p t hn ht => simp [hn, tokOf, ht]; np
+    | preset p nm d t hn hc ht fd =>
+      have hdd := hd d fd
+      simp [hn, hc, child, tokOf, ht]; np
+    | other p hn => simp [hn.1, hn.2]; np
+
+theorem buildFrame_np (evalDefault : Node → M Val) (hd : ∀ d, Frag d → NP (evalDefault d)) (fr : FuncRec)
+    (ps : List Node) (hps : ∀ p, p ∈ ps → Param p) (args : List Val) : NP (buildFrame evalDefault fr (ps.map some) args) := by
+  have hb := bindParamNodes_np evalDefault hd
+  unfold buildFrame bindContext
+  np
+
+theorem Good.false {cn : Node} (h : Good cn) : False := by
+  obtain ⟨kids, _, hl, fc, hfc, hn⟩ := h
+  cases hl fc hfc <;> simp_all
 
 abbrev IH (g : Nat) : Prop := ∀ g', g' < g → ∀ sc n, Frag n → NP (eval g' sc n)
 
@@ -428,32 +632,6 @@ theorem cmpOp_step (sc : Nat) (n a b : Node) (hc : n.children = [some a, some b]
   | error e =>
     have he : e ≠ Sig.panic := hr
     simp [hc, child]; np
-theorem identSet_step (sc : Nat) (n : Node) (t : Tok) (ht : n.tok = some t) (hc : n.children = []) (v : Val) :
-    NP (identSet (g+1) sc n v) := by
-  have ih := ihs g (Nat.le_refl g)
-  unfold identSet; simp [hc, ht, tokOf]; np
-theorem identSet_any0 (sc : Nat) (n : Node) (t : Tok) (ht : n.tok = some t) (hc : n.children = []) (v : Val) :
-    NP (identSet g sc n v) := by
-  cases g with
-  | zero => unfold identSet; np
-  | succ g' => exact identSet_step g' (fun g'' h => ihs g'' (by omega)) sc n t ht hc v
-theorem evalAssign_step (sc : Nat) (n lhs rhs : Node) (hc : n.children = [some lhs, some rhs])
-    (hl : lhs.name = "identifier") (fl : Frag lhs) (fr : Frag rhs) : NP (evalAssign (g+1) sc n) := by
-  have ih := ihs g (Nat.le_refl g)
-  obtain ⟨tl, htl, hcl⟩ := Frag.ident_inv fl hl
-  unfold evalAssign; simp [hc, child, hl]; np
-  all_goals exact identSet_any0 g ihs sc lhs tl htl hcl _
-theorem evalAssignLet_step (sc : Nat) (n lhs lv rhs : Node) (hc : n.children = [some lhs, some rhs])
-    (hl : lhs.name = "let") (hlc : lhs.children = [some lv]) (hlv : lv.name = "identifier") (flv : Frag lv)
-    (fl : Frag lhs) (fr : Frag rhs) : NP (evalAssign (g+1) sc n) := by
-  have ih := ihs g (Nat.le_refl g)
-  obtain ⟨tl, htl, hcl⟩ := Frag.ident_inv flv hlv
-  unfold evalAssign; simp [hc, child, hl, hlc, hlv]; np
-  all_goals exact identSet_any0 g ihs sc lv tl htl hcl _
-theorem evalIdent_step (sc : Nat) (n : Node) (t : Tok) (ht : n.tok = some t) (hc : n.children = []) :
-    NP (evalIdent (g+1) sc n) := by
-  have ih := ihs g (Nat.le_refl g)
-  unfold evalIdent; simp [hc, ht, tokOf]; np
 theorem numVal_any (sc : Nat) (n c : Node) (hc : n.children = [some c]) (fc : Frag c) (op : Float → Float) : NP (numVal g sc n op) := by
   cases g with
   | zero => unfold numVal; np
@@ -474,10 +652,318 @@ theorem inOp_any (sc : Nat) (n a b : Node) (hc : n.children = [some a, some b]) 
   cases g with
   | zero => unfold inOp; np
   | succ g' => exact inOp_step g' (fun g'' h => ihs g'' (by omega)) sc n a b hc fa fb
-theorem evalIdent_any (sc : Nat) (n : Node) (t : Tok) (ht : n.tok = some t) (hc : n.children = []) : NP (evalIdent g sc n) := by
+omit ihs in
+theorem accP_done (cn : Node) (p res : List Nat) (i : Nat) (h : Good cn) :
+    AccP (stepVal (ForInStep.done (some (some cn, p), res, i))) := by
+  intro r hr c hc
+  simp only [stepVal, Option.some.injEq] at hr
+  subst hr
+  simp only [Option.some.injEq] at hc
+  subst hc
+  exact h
+theorem accessString_any (sc : Nat) : ∀ k, k ≤ g + 1 → ∀ (n : Node) (kids : List Node) (pre : List Nat),
+    n.children = kids.map some → (∀ c, c ∈ kids → Link c) → NPQ (accessString k sc n pre) AccQ := by
+  intro k; induction k with
+  | zero => intro _ n kids pre _ _; unfold accessString; exact NPQ.throw _ _ (by simp)
+  | succ k ihk =>
+    intro hk n kids pre hc hl
+    have ihk' := ihk (by omega)
+    have ihe := ihs k (by omega)
+    unfold accessString
+    refine NPQ.bind _ _ AccP _ ?_ (fun st hst => ?_)
+    · rw [hc]
+      refine NPQ.forInP AccP _ _ (fun a ha b hb => ?_) _ (by intro r hr; cases hr)
+      obtain ⟨c, hcm, rfl⟩ := List.mem_map.mp ha
+      have hyield : ∀ (res : List Nat) (i : Nat), AccP (stepVal (ForInStep.yield ((none : Option (Option Node × List Nat)), res, i))) := by
+        intro res i r hr; cases hr
+      cases hl c hcm with
+      | comp c e hn hcc fe =>
+        simp [hn, hcc, child]
+        np
+        all_goals first | exact NPQ.pure _ _ (hyield _ _) | skip
+        rename_i nx heq hfc
+        have hm : nx ∈ kids := by
+          have : kids[b.snd.snd + 1]? = some nx := by simpa using heq
+          exact List.mem_of_getElem? this
+        exact NPQ.pure _ _ (accP_done _ _ _ _ ⟨kids, hc, hl, nx, hm, hfc⟩)
+      | field c t ckids hn ht hcc hlc =>
+        simp [hn, hcc, tokOf, ht]
+        cases ckids with
+        | nil => simp; exact NPQ.pure _ _ (hyield _ _)
+        | cons g0 rest =>
+          simp
+          split
+          · rename_i hfc
+            exact NPQ.pure _ _ (accP_done _ _ _ _ ⟨g0 :: rest, hcc, hlc, g0, by simp, hfc⟩)
+          · refine NPQ.bind _ _ AccQ _ (ihk' c (g0 :: rest) _ hcc hlc) (fun x hx => ?_)
+            split
+            · refine NPQ.pure _ _ ?_
+              intro r hr
+              simp only [stepVal, Option.some.injEq] at hr
+              subst hr
+              exact hx
+            · exact NPQ.pure _ _ (hyield _ _)
+      | other c hn =>
+        simp [hn.1, hn.2.1]
+        exact NPQ.pure _ _ (hyield _ _)
+    · dsimp only []
+      split
+      · next r hr => exact NPQ.pure _ _ (hst r hr)
+      · exact NPQ.pure _ _ (by intro cn h; cases h)
+theorem identSet_any (sc : Nat) (n : Node) (fn : Frag n) (hn : n.name = "identifier") (v : Val) :
+    ∀ k, k ≤ g + 2 → NP (identSet k sc n v) := by
+  intro k hk
+  obtain ⟨t, kids, ht, hc, hl⟩ := Frag.ident_inv fn hn
+  cases k with
+  | zero => unfold identSet; np
+  | succ k =>
+    unfold identSet; simp [tokOf, ht]
+    split
+    · np
+    · refine NPQ.bind _ _ AccQ _ (accessString_any g ihs sc k (by omega) n kids _ hc hl) (fun x _ => ?_)
+      np
+set_option hygiene false in
+/-- the part of `evalAssign` after the left side `lhs'` (a `Frag` node, proof `$fl'`) is known -/
+macro "assign_tail " fl':term : tactic => `(tactic| (
+  refine NPQ.bind _ _ (fun ts => ∀ b, b ∈ ts → Frag b ∧ b.name = "identifier") _ ?_ (fun targets hts => ?_)
+  · split
+    · rename_i hid; exact NPQ.pure _ _ (by intro b hb; simp at hb; subst hb; exact ⟨$fl', hid⟩)
+    · split
+      · rename_i hli
+        obtain ⟨lk, hlk, hlf⟩ := Frag.list_inv $fl' hli
+        rw [hlk]
+        refine NPQ.mapMQ _ _ _ (fun a ha => ?_)
+        obtain ⟨c, hcm, rfl⟩ := List.mem_map.mp ha
+        dsimp only []
+        split
+        · rename_i hci; exact NPQ.pure _ _ ⟨hlf c hcm, hci⟩
+        · exact NPQ.throw _ _ (rtErr_ne_panic _ _)
+      · exact NPQ.throw _ _ (rtErr_ne_panic _ _)
+  · refine NPQ.bind _ _ (fun _ => True) _ (ih sc lhs fl) (fun _ _ => ?_)
+    refine NPQ.bind _ _ (fun _ => True) _ (ih sc rhs fr) (fun v _ => ?_)
+    split
+    · split
+      · exact NPQ.map _ _ (identSet_any g ihs sc _ (hts _ (by simp)).1 (hts _ (by simp)).2 _ g (by omega))
+      · np
+    · split
+      · refine NPQ.bind _ _ (fun _ => True) _ (getList_np _ _) (fun vs _ => ?_)
+        split
+        · refine NPQ.map _ _ ?_
+          refine NPQ.forIn _ _ (fun x hx _ => ?_) _
+          have hx1 := (List.of_mem_zip hx).1
+          refine NPQ.bind _ _ _ _ (NPQ.attemptE _ _ (identSet_any g ihs sc _ (hts _ hx1).1 (hts _ hx1).2 _ g (by omega))) (fun r hr => ?_)
+          cases r with
+          | ok a => dsimp only []; np
+          | error e => have he : e ≠ Sig.panic := hr; dsimp only []; np
+        · np
+      · np))
+
+theorem evalAssign_step (sc : Nat) (n lhs rhs : Node) (hc : n.children = [some lhs, some rhs])
+    (fl : Frag lhs) (fr : Frag rhs) : NP (evalAssign (g+1) sc n) := by
+  have ih := ihs g (Nat.le_refl g)
+  unfold evalAssign; simp [hc, child]
+  split
+  · rename_i hlet
+    obtain ⟨lv, hlv, flv⟩ := Frag.let_inv fl hlet
+    simp [hlv]
+    assign_tail flv
+  · assign_tail fl
+theorem evalIdent_step (sc : Nat) (n : Node) (t : Tok) (kids : List Node) (ht : n.tok = some t)
+    (hc : n.children = kids.map some) (hl : ∀ c, c ∈ kids → Link c)
+    (hcall : ∀ sc node path fv, Good node → NP (callFunction g sc node path fv)) :
+    NP (evalIdent (g+1) sc n) := by
+  unfold evalIdent; simp [tokOf, ht]
+  split
+  · np
+  · refine NPQ.bind _ _ AccQ _ (accessString_any g ihs sc g (by omega) n kids _ hc hl) (fun x hx => ?_)
+    split
+    · np
+    · split
+      · rename_i cn hcn
+        split
+        · refine NPQ.bind _ _ (fun _ => True) _ (getValue_np _ _) (fun _ _ => ?_)
+          exact hcall _ _ _ _ (hx cn hcn)
+        · np
+      · refine NPQ.bind _ _ (fun _ => True) _ (getValue_np _ _) (fun _ _ => ?_)
+        split
+        · rename_i hany
+          split
+          · rename_i v0 hv0
+            refine hcall _ _ _ _ ⟨kids, hc, hl, ?_⟩
+            obtain ⟨y, hy, hy2⟩ := hany
+            rw [hv0] at hy
+            simp only [List.mem_singleton] at hy
+            subst hy
+            have : some v0 ∈ List.map some kids := by rw [← hc, hv0]; simp
+            obtain ⟨k0, hk0, hk1⟩ := List.mem_map.mp this
+            cases hk1
+            exact ⟨v0, hk0, by simpa using hy2⟩
+          · np
+        · np
+theorem evalIdent_any (sc : Nat) (n : Node) (t : Tok) (kids : List Node) (ht : n.tok = some t)
+    (hc : n.children = kids.map some) (hl : ∀ c, c ∈ kids → Link c)
+    (hcall : ∀ k, k ≤ g → ∀ sc node path fv, Good node → NP (callFunction k sc node path fv)) :
+    NP (evalIdent g sc n) := by
   cases g with
   | zero => unfold evalIdent; np
-  | succ g' => exact evalIdent_step g' (fun g'' h => ihs g'' (by omega)) sc n t ht hc
+  | succ g' => exact evalIdent_step g' (fun g'' h => ihs g'' (by omega)) sc n t kids ht hc hl (hcall g' (by omega))
+theorem exceptHandler_step (sc : Nat) (c : Node) (t : Tok) (kids : List Node) (ht : c.tok = some t)
+    (hc : c.children = kids.map some) (hne : kids ≠ []) (hk : ∀ k, k ∈ kids → Frag k) (e : Sig) :
+    NP (exceptHandler (g+1) sc c e) := by
+  have ih := ihs g (Nat.le_refl g)
+  have hsn := scopeName_np c t ht
+  unfold exceptHandler
+  dsimp only []
+  obtain ⟨k0, krest, rfl⟩ := List.exists_cons_of_ne_nil hne
+  have f0 : Frag k0 := hk k0 (by simp)
+  cases krest with
+  | nil => simp [hc, child]; np
+  | cons k1 krest =>
+    have f1 : Frag k1 := hk k1 (by simp)
+    simp [hc, child]
+    split
+    · -- binding form `except e { }` / `except as e { }`
+      by_cases has : k0.name = "as"
+      · obtain ⟨v, hv, fv⟩ := Frag.as_inv f0 has
+        simp [has, hv, child]; np
+      · simp [has]; np
+    · -- typed clause
+      refine NPQ.bind _ _ (fun r => ∀ b, b ∈ r → Frag b) _ ?_ (fun kids' hk' => ?_)
+      · refine NPQ.mapMQ Frag krest _ (fun a ha => ?_)
+        simp only [Function.comp_apply]
+        exact NPQ.pure _ _ (hk a (by simp [ha]))
+      · have hfull : ∀ b, b ∈ k0 :: k1 :: kids' → Frag b := by
+          intro b hb
+          simp only [List.mem_cons] at hb
+          rcases hb with hb | hb | hb
+          · subst hb; exact f0
+          · subst hb; exact f1
+          · exact hk' b hb
+        have hdrop : ∀ b, b ∈ List.dropWhile (fun x => x.name == "string") (k0 :: k1 :: kids') → Frag b :=
+          fun b hb => hfull b ((List.dropWhile_sublist _).subset hb)
+        have htake : ∀ b, b ∈ List.takeWhile (fun x => x.name == "string") (k0 :: k1 :: kids') → Frag b :=
+          fun b hb => hfull b ((List.takeWhile_sublist _).subset hb)
+        refine NPQ.bind _ _ (fun x => Frag x.2) _ ?_ (fun x hx => ?_)
+        · split
+          · rename_i st heq
+            have fst : Frag st := hdrop st (by rw [heq]; simp)
+            split
+            · exact NPQ.pure _ _ fst
+            · np
+          · rename_i a st heq
+            have fa : Frag a := hdrop a (by rw [heq]; simp)
+            have fst : Frag st := hdrop st (by rw [heq]; simp)
+            split
+            · rename_i hcond
+              have has : a.name = "as" := hcond.1
+              obtain ⟨v, hv, fv⟩ := Frag.as_inv fa has
+              simp [hv, child]
+              refine NPQ.bind _ _ (fun _ => True) _ (tokOf_np v fv) (fun _ _ => NPQ.pure _ _ fst)
+            · np
+          · np
+        · refine NPQ.bind _ _ (fun _ => True) _ (typedMatch_np _ _ _ (by
+            intro m hm
+            obtain ⟨ch, hch, rfl⟩ := List.mem_map.mp hm
+            exact ih sc ch (htake ch hch))) (fun _ _ => ?_)
+          np
+theorem exceptHandler_any (sc : Nat) (c : Node) (t : Tok) (kids : List Node) (ht : c.tok = some t)
+    (hc : c.children = kids.map some) (hne : kids ≠ []) (hk : ∀ k, k ∈ kids → Frag k) (e : Sig) :
+    NP (exceptHandler g sc c e) := by
+  cases g with
+  | zero => unfold exceptHandler; np
+  | succ g' => exact exceptHandler_step g' (fun g'' h => ihs g'' (by omega)) sc c t kids ht hc hne hk e
+theorem evalTry_step (sc : Nat) (n : Node) (t : Tok) (body : Node) (clauses : List Node) (ht : n.tok = some t)
+    (hc : n.children = some body :: clauses.map some) (fb : Frag body) (hbn : body.name ≠ "finally")
+    (hcl : ∀ c, c ∈ clauses → Clause c) : NP (evalTry (g+1) sc n) := by
+  have ih := ihs g (Nat.le_refl g)
+  unfold evalTry
+  simp only [hc, List.drop_succ_cons, List.drop_zero]
+  refine NPQ.bind _ _ (fun l => l.name = "finally" → ∃ (tl : Tok) (b : Node), l.tok = some tl ∧ l.children = [some b] ∧ Frag b) _ ?_ (fun last hlast => ?_)
+  · rcases List.eq_nil_or_concat clauses with rfl | ⟨init, lc, rfl⟩
+    · simp; exact NPQ.pure _ _ (fun h => absurd h hbn)
+    · have hL : (some body :: List.map some (init.concat lc)).getLast? = some (some lc) := by
+        rw [List.concat_eq_append, List.map_append]
+        exact getLast?_cons_append_singleton _ _ _
+      rw [hL]; dsimp only []
+      refine NPQ.pure _ _ ?_
+      intro hf
+      cases hcl lc (by simp) with
+      | exc c t kids hn ht hc hne hk => simp_all
+      | blk c t b hn ht hc fb => exact ⟨t, b, ht, hc, fb⟩
+      | other c hn => exact absurd hf hn.2.2
+  · refine NPQ.bind _ _ (fun fin => ∀ fi, fin = some fi → NP fi) _ ?_ (fun fin hfin => ?_)
+    · split
+      · rename_i hfn
+        obtain ⟨tl, b, htl, hcl', fbl⟩ := hlast (by simpa using hfn)
+        refine NPQ.bind _ _ (fun _ => True) _ (scopeName_np last tl htl) (fun _ _ => ?_)
+        refine NPQ.bind _ _ (fun _ => True) _ (newChild_np _ _) (fun fs _ => ?_)
+        refine NPQ.pure _ _ ?_
+        intro fi hfi
+        cases hfi
+        simp [child, hcl']
+        exact ih _ _ fbl
+      · exact NPQ.pure _ _ (by intro fi h; cases h)
+    · refine tryFinally_np _ _ ?_ hfin
+      refine NPQ.bind _ _ (fun _ => True) _ (scopeName_np n t ht) (fun _ _ => ?_)
+      refine NPQ.bind _ _ (fun _ => True) _ (newChild_np _ _) (fun tvs _ => ?_)
+      refine tryCore_np _ _ _ ?_ ?_ ?_
+      · simp [hc, child]; exact ih _ _ fb
+      · intro h hm e
+        obtain ⟨a, ha, hha⟩ := List.mem_filterMap.mp hm
+        obtain ⟨c, hcm, rfl⟩ := List.mem_map.mp ha
+        dsimp only [] at hha
+        split at hha
+        · cases hha
+          rename_i hex
+          cases hcl c hcm with
+          | exc c t kids hn ht hc hne hk => exact exceptHandler_any g ihs sc c t kids ht hc hne hk e
+          | blk c t b hn ht hc fb => simp_all
+          | other c hn => simp_all
+        · cases hha
+      · intro o ho
+        split at ho
+        · rename_i o' heq
+          cases ho
+          have hm : o' ∈ clauses := by
+            have := List.mem_of_find?_eq_some heq
+            obtain ⟨x, hx, hx'⟩ := List.mem_map.mp this
+            cases hx'; exact hx
+          have hname : o'.name = "otherwise" := by
+            have := List.find?_some heq
+            simpa using this
+          cases hcl o' hm with
+          | exc c t kids hn ht hc hne hk => simp_all
+          | blk c t b hn ht hc' fb' =>
+            refine NPQ.bind _ _ (fun _ => True) _ (scopeName_np o' t ht) (fun _ _ => ?_)
+            refine NPQ.bind _ _ (fun _ => True) _ (newChild_np _ _) (fun ovs _ => ?_)
+            simp [child, hc']
+            exact ih _ _ fb'
+          | other c hn => simp_all
+        · cases ho
+/-- function.Run: any entry of the function table (under `Inv`: a `Frag` declaration), any arguments -/
+theorem runFunction_any (sc id : Nat) (args : List Val) : ∀ k, k ≤ g + 1 → NP (runFunction k sc id args) := by
+  intro k hk
+  cases k with
+  | zero => unfold runFunction; np
+  | succ k =>
+    have ihe := ihs k (by omega)
+    unfold runFunction
+    refine NPQ.bind (get : M St) _ Inv _ NPQ.get (fun s hs => ?_)
+    split
+    · rename_i fr hfr
+      have hmem : fr ∈ s.funcs.toList := by
+        have := Array.mem_of_getElem? hfr
+        exact Array.mem_toList_iff.mpr this
+      obtain ⟨fd, hfn⟩ := hs.1 fr hmem
+      obtain ⟨params, body, ps, hp, hps, fb, hshape⟩ := Frag.func_inv fd hfn
+      rcases hshape with ⟨c0, hc, h0⟩ | ⟨hc, h0⟩
+      · simp [hc, child, h0, hp]
+        refine NPQ.bind _ _ (fun _ => True) _ (buildFrame_np _ (fun d fdd => ihe sc d fdd) fr ps hps args) (fun fvs _ => ?_)
+        exact callCore_np _ (withFreshIs_np _ (ihe fvs body fb))
+      · simp [hc, child, h0, hp]
+        refine NPQ.bind _ _ (fun _ => True) _ (buildFrame_np _ (fun d fdd => ihe sc d fdd) fr ps hps args) (fun fvs _ => ?_)
+        exact callCore_np _ (withFreshIs_np _ (ihe fvs body fb))
+    · exact NPQ.bind _ _ (fun _ => False) _ (NPQ.throw _ _ (by simp)) (fun _ h => h.elim)
 theorem ifBranches_any (sc : Nat) : ∀ (pairs : List (Node × Node)), (∀ p, p ∈ pairs → Frag p.1) → (∀ p, p ∈ pairs → Frag p.2) →
     ∀ k, k ≤ g + 1 → NPQ (ifBranches k sc (pairs.flatMap (fun p => [some p.1, some p.2])))
       (fun l => ∀ q, q ∈ l → NP q.1 ∧ NP q.2) := by
@@ -502,14 +988,47 @@ theorem ifBranches_any (sc : Nat) : ∀ (pairs : List (Node × Node)), (∀ p, p
       · subst hq
         exact ⟨ihs k (by omega) sc _ (hg p (by simp)), ihs k (by omega) sc _ (hb p (by simp))⟩
       · exact hl q hq
-theorem evalLoopGuard_step (sc : Nat) (n c0 body : Node) (t : Tok) (ht : n.tok = some t)
-    (hc : n.children = [some c0, some body]) (h0 : c0.name = "guard") (f0 : Frag c0) (fb : Frag body) :
+theorem iterNext_any (ls : Nat) (loopNode it : Node) (fit : Frag it) :
+    ∀ k, k ≤ g + 1 → ∀ s, NP (iterNext k ls loopNode it s) := by
+  intro k hk s
+  cases k with
+  | zero => unfold iterNext; np
+  | succ k =>
+    have ihe := ihs k (by omega)
+    unfold iterNext; np
+theorem evalLoop_step (sc : Nat) (n c0 body : Node) (t : Tok) (ht : n.tok = some t)
+    (hc : n.children = [some c0, some body]) (f0 : Frag c0) (fb : Frag body) :
     NP (evalLoop (g+1) sc n) := by
   have ih := ihs g (Nat.le_refl g)
-  unfold evalLoop; simp [hc, child, h0]
-  refine NPQ.bind _ _ (fun _ => True) _ (scopeName_np n t ht) (fun _ _ => ?_)
-  refine NPQ.bind _ _ (fun _ => True) _ (newChild_np _ _) (fun ls _ => ?_)
-  exact withFreshIs_np _ (guardLoop_np _ _ (ih ls c0 f0) (ih ls body fb) g)
+  by_cases hin : c0.name = "in"
+  · obtain ⟨iv, it, hcc, fiv, fit⟩ := Frag.in_inv f0 hin
+    unfold evalLoop; simp [hc, child, hin, hcc]
+    refine NPQ.bind _ _ (fun _ => True) _ ?_ (fun vars _ => ?_)
+    · split
+      · np
+      · split
+        · rename_i hli
+          obtain ⟨lk, hlk, hlf⟩ := Frag.list_inv fiv hli
+          rw [hlk]
+          refine NPQ.mapM _ _ (fun a ha => ?_)
+          obtain ⟨c, hcm, rfl⟩ := List.mem_map.mp ha
+          have fc := hlf c hcm
+          dsimp only []; np
+        · np
+    · refine NPQ.bind _ _ (fun _ => True) _ (scopeName_np n t ht) (fun _ _ => ?_)
+      refine NPQ.bind _ _ (fun _ => True) _ (newChild_np _ _) (fun ls _ => ?_)
+      refine withFreshIs_np _ ?_
+      refine NPQ.bind _ _ _ _ (NPQ.attemptE _ _ (ih ls it fit)) (fun x hx => ?_)
+      refine NPQ.bind _ _ (fun _ => True) _ ?_ (fun start _ => ?_)
+      · np
+      · exact iterLoop_np _ _ _ (fun s => iterNext_any g ihs ls n it fit g (by omega) s)
+          (fun v => bindLoopVars_np _ _ _ _) (ih ls body fb) g _
+  · unfold evalLoop; simp [hc, child, hin]
+    refine NPQ.bind _ _ (fun _ => True) _ (scopeName_np n t ht) (fun _ _ => ?_)
+    refine NPQ.bind _ _ (fun _ => True) _ (newChild_np _ _) (fun ls _ => ?_)
+    split
+    · exact withFreshIs_np _ (guardLoop_np _ _ (ih ls c0 f0) (ih ls body fb) g)
+    · np
 theorem interpolate_any (sc : Nat) (n : Node) (t : Tok) (ht : n.tok = some t) :
     ∀ k, k ≤ g + 1 → ∀ rest, NP (interpolate k sc n rest) := by
   intro k; induction k with
@@ -595,17 +1114,14 @@ theorem eval_frag_np : ∀ (f sc : Nat) (n : Node), Frag n → NP (eval f sc n) 
           have hb' : ¬a.name = "kvp" ∨ ¬a.children.length = 2 := hb
           simp only [hb', if_true]; np
         | kvp c k v hcc fk fv => simp [hcc, child]; np
-      | ident0 n t ht h hc => unfold eval; simp [h]; exact evalIdent_any f ihs sc n t ht hc
-      | assign n t lhs rhs ht h hc hl fl fr =>
+      | ident n t kids ht h hc hl =>
+        unfold eval; simp [h]
+        exact evalIdent_any f ihs sc n t kids ht hc hl (fun _ _ _ _ _ _ hg => (Good.false hg).elim)
+      | assign n t lhs rhs ht h hc fl fr =>
         unfold eval; simp [h]
         cases f with
         | zero => unfold evalAssign; np
-        | succ f' => exact evalAssign_step f' (fun g'' hg => ihs g'' (by omega)) sc n lhs rhs hc hl fl fr
-      | assignLet n t lhs lv rhs ht h hc hl hlc hlv flv fl fr =>
-        unfold eval; simp [h]
-        cases f with
-        | zero => unfold evalAssign; np
-        | succ f' => exact evalAssignLet_step f' (fun g'' hg => ihs g'' (by omega)) sc n lhs lv rhs hc hl hlc hlv flv fl fr
+        | succ f' => exact evalAssign_step f' (fun g'' hg => ihs g'' (by omega)) sc n lhs rhs hc fl fr
       | letN n t lv ht h hc fl =>
         unfold eval; simp [h, hc, child]
         split
@@ -621,18 +1137,50 @@ theorem eval_frag_np : ∀ (f sc : Nat) (n : Node), Frag n → NP (eval f sc n) 
         refine NPQ.bind _ _ (fun _ => True) _ (newChild_np _ _) (fun bs _ => ?_)
         rw [hc]
         exact NPQ.bind _ _ _ _ (ifBranches_any f ihs bs pairs hg hb f (by omega)) (fun l hl => ifChain_np l hl)
-      | loopGuard n t c0 body ht h hc h0 f0 fb =>
+      | loop n t c0 body ht h hc f0 fb =>
         unfold eval; simp [h]
         cases f with
         | zero => unfold evalLoop; np
-        | succ f' => exact evalLoopGuard_step f' (fun g'' hg => ihs g'' (by omega)) sc n c0 body t ht hc h0 f0 fb
+        | succ f' => exact evalLoop_step f' (fun g'' hg => ihs g'' (by omega)) sc n c0 body t ht hc f0 fb
       | istring n t ht h =>
         unfold eval; simp [h, tokOf, ht]
         split
         · exact NPQ.map _ _ (interpolate_any f ihs sc n t ht f (by omega) _)
         · np
+      | asN n t v ht h hc fv => unfold eval; simp [h]; np
+      | tryN n t body clauses ht h hc fb hbn hcl =>
+        unfold eval; simp [h]
+        cases f with
+        | zero => unfold evalTry; np
+        | succ f' => exact evalTry_step f' (fun g'' hg => ihs g'' (by omega)) sc n t body clauses ht hc fb hbn hcl
+      | funcNamed n t t0 c0 params body ps ht h hc h0 ht0 hp hps fb =>
+        have hn' : Frag n := Frag.funcNamed n t t0 c0 params body ps ht h hc h0 ht0 hp hps fb
+        unfold eval; simp [h, hc, child, h0, tokOf, ht0]
+        refine NPQ.bind (get : M St) _ Inv _ NPQ.get (fun s hs => ?_)
+        refine NPQ.bind _ _ (fun _ => True) _ (NPQ.set _ ?_) (fun _ _ => by np)
+        refine ⟨?_, hs.2⟩
+        intro fr hfr
+        simp only [Array.toList_push, List.mem_append, List.mem_singleton] at hfr
+        rcases hfr with hfr | hfr
+        · exact hs.1 fr hfr
+        · subst hfr; exact ⟨hn', h⟩
+      | funcAnon n t params body ps ht h hc h0 hp hps fb =>
+        have hn' : Frag n := Frag.funcAnon n t params body ps ht h hc h0 hp hps fb
+        unfold eval; simp [h, hc, child, h0]
+        refine NPQ.bind (get : M St) _ Inv _ NPQ.get (fun s hs => ?_)
+        refine NPQ.bind _ _ (fun _ => True) _ (NPQ.set _ ?_) (fun _ _ => by np)
+        refine ⟨?_, hs.2⟩
+        intro fr hfr
+        simp only [Array.toList_push, List.mem_append, List.mem_singleton] at hfr
+        rcases hfr with hfr | hfr
+        · exact hs.1 fr hfr
+        · subst hfr; exact ⟨hn', h⟩
       | inert n t ht h =>
-        rcases h with h | h | h | h | h | h | h | h | h | h | h | h | h <;> (unfold eval; simp [h]; np)
+        rcases h with h | h | h | h | h | h | h | h | h | h | h | h <;> (unfold eval; simp [h]; np)
+
+/-- running ANY entry of the function table with ANY arguments never panics (under `Inv`) -/
+theorem runFunction_np (k sc id : Nat) (args : List Val) : NP (runFunction k sc id args) :=
+  runFunction_any k (fun g' _ => eval_frag_np g') sc id args k (by omega)
 
 /-- the statement in the shape used by `Props/C06.lean` -/
 theorem eval_frag_no_panic (f sc : Nat) (n : Node) (hn : Frag n) (s : St) (hs : Inv s) :
@@ -661,7 +1209,8 @@ def fragExample : Node :=
       some (exNode "map" [] [some (exNode "number" [49] [])])])]
 
 theorem fragExample_ok : Frag fragExample := by
-  refine Frag.assign _ (exTok []) (exNode "identifier" [97] []) _ rfl rfl rfl rfl (Frag.ident0 _ (exTok [97]) rfl rfl rfl) ?_
+  refine Frag.assign _ (exTok []) (exNode "identifier" [97] []) _ rfl rfl rfl
+    (Frag.ident _ (exTok [97]) [] rfl rfl rfl (by intro c hc; cases hc)) ?_
   refine Frag.list _ (exTok []) [_, _] rfl rfl rfl ?_
   intro c hc
   simp only [List.mem_cons, List.not_mem_nil, or_false] at hc
